@@ -440,6 +440,18 @@ func c14Texts() []c14msg {
 		c14msg{name: "text[addr-without-cport]", raw: bulkNodes(strings.ReplaceAll(c14Base(), "@17000", "")), valid: true},
 		c14msg{name: "text[hostname-addr]", raw: bulkNodes(c14Base() + "\n" + "h1 :7000@17000 slave aaa 0 0 1 connected"), valid: true},
 	)
+	// small clusters: three usable NODES are enough, whatever their roles
+	out = append(out,
+		c14msg{name: "text[two-masters-one-replica]", raw: bulkNodes(strings.Join([]string{
+			line("aaa", nA, "master", "-", "", "0-8000"), line("bbb", nB, "myself,master", "-", "", "8001-16383"), line("a1", AddrA1, "slave", "aaa", "")}, "\n")), valid: true},
+		c14msg{name: "text[one-master-two-replicas]", raw: bulkNodes(strings.Join([]string{
+			line("aaa", nA, "myself,master", "-", "", "0-16383"), line("a1", AddrA1, "slave", "aaa", ""), line("a2", AddrA2, "slave", "aaa", "")}, "\n")), valid: true},
+		c14msg{name: "text[two-masters-third-failed-plus-replicas]", raw: bulkNodes(strings.Join([]string{
+			line("aaa", nA, "master", "-", "", "0-5460"), line("bbb", nB, "myself,master", "-", "", "5461-10922"), line("ccc", nC, "master,fail", "-", "disconnected", "10923-16383"),
+			line("a1", AddrA1, "slave", "aaa", ""), line("b1", AddrB1, "slave", "bbb", "")}, "\n")), valid: true},
+		c14msg{name: "text[four-masters-no-replicas]", raw: bulkNodes(strings.Join([]string{
+			line("aaa", nA, "master", "-", "", "0-4000"), line("bbb", nB, "myself,master", "-", "", "4001-8000"), line("ccc", nC, "master", "-", "", "8001-12000"), line("ddd", nD, "master", "-", "", "12001-16383")}, "\n")), valid: true},
+	)
 	// the order of the lines is arbitrary in CLUSTER NODES output (a replica may be listed before its master)
 	base := strings.Split(strings.Replace(c14Base(), "10923-16383", "10923-16000", 1), "\n")
 	rev := make([]string, len(base))
